@@ -69,6 +69,18 @@ class MultiTargetMCSU2(Gate):
         if isinstance(self.unitaries, list):
             self.definition = QuantumCircuit(self.controls, self.target)
 
+            if len(self.controls) == 1:
+                # The half-size multi-controlled X gates need at least one control
+                # each; with a single control every target gets the plain controlled gate.
+                for idx, unitary in enumerate(self.unitaries):
+                    u_gate = QuantumCircuit(1)
+                    u_gate.unitary(unitary, 0)
+                    self.definition.append(
+                        u_gate.control(1, ctrl_state=self.ctrl_state),
+                        [self.controls[0], self.target[idx]],
+                    )
+                return
+
             is_main_diags_real = []
             is_secondary_diags_real = []
             for unitary in self.unitaries:
